@@ -7,8 +7,8 @@
    forced-mate solver extracted from the rules-of-chess specification (mate/mated in <= 2 moves) on mate positions.
    Honest limit (DESIGN.md): for depth >= 3 "announced mate => forced mate" is not a theorem of an engine with null-move pruning
    and a TT shared across histories; it is searched for counterexamples, not proved. *)
-From Coq Require Import ZArith Lia.
-From JV Require Import Gen.Consts Model.Chess Model.Eval Model.TT Model.Search Proofs.TTProofs Proofs.MateProofs Proofs.LegalInv Proofs.CountProofs Proofs.EvalReach Proofs.StartPos.
+From Coq Require Import NArith ZArith List Lia.
+From JV Require Import Gen.Consts Model.Chess Model.Eval Model.TT Model.Search Proofs.TTProofs Proofs.MateProofs Proofs.LegalInv Proofs.CountProofs Proofs.EvalReach Proofs.StartPos Model.SearchChess Model.Monitors Model.Abs Model.Sym Spec.ChessSpec Spec.Minimax Proofs.MateTruth Props.C19.
 Local Open Scope Z_scope.
 
 Theorem C11_conv_pos : forall p, 1 <= p < 1000 -> Z.odd p = true -> mate_field (MATE_VALUE - p) = Some ((p + 1) / 2).
@@ -38,8 +38,38 @@ Proof. intros g L M. apply C11_conv_cp. pose proof (evaluate_bound_inv g L M). l
 Theorem C11_static_evaluation_never_prints_as_mate_from_the_start_position : forall g, chess_reach start_game g -> mate_field (evaluate g) = None.
 Proof. intros g R. apply C11_conv_cp. pose proof (evaluate_bound_from_start g R). lia. Qed.
 
+(* TRUTHFULNESS on the exact-search domain.  The value of the reference game tree (what a search of depth 1-2 with the table bypassed
+   returns: C19) is, for every position satisfying the invariant with at most 16 men a side, of exactly one of three kinds: inside
+   +-34200 (printed as centipawns), MATE_VALUE - (2n-1) with the side to move able to force mate within n moves under the rules
+   (ChessSpec.mates_in n), or -MATE_VALUE + 2n with the side to move mated within n moves whatever it plays (ChessSpec.mated_in n); and the
+   printed field is +n / -n accordingly.  (Proofs/MateTruth.v: evaluation bound + exact generation + successor refinement + verdicts.) *)
+Theorem C11_exact_values_are_truthful : forall g depth, legal_inv g -> men16 g ->
+  let v := minimax g depth in
+  (Z.abs v <= 34200 /\ mate_field v = None) \/
+  (exists n, (1 <= n)%nat /\ v = MATE_VALUE - Z.of_nat (2 * n - 1) /\ mate_field v = Some (Z.of_nat n) /\ mates_in n (abs g) = true) \/
+  (exists n, v = - MATE_VALUE + Z.of_nat (2 * n) /\ mate_field v = Some (- Z.of_nat n) /\ mated_in n (abs g) = true).
+Proof. exact exact_value_is_truthful. Qed.
+
+(* hence every mate announcement of a search of depth 1-2 with the table bypassed and an empty history, never told to stop, is true *)
+Theorem C11_announcements_of_exact_searches_are_truthful : forall pollp g depth t rt outs e s sc N (d : nat) nd pv,
+  legal_inv g -> men16 g ->
+  chess_search pollp (fun _ => false) true g depth t rt 0 = SDone outs e s ->
+  In (OInfo sc (Some N) d nd pv) outs -> (d <= 2)%nat ->
+  (0 < N -> mates_in (Z.to_nat N) (abs g) = true) /\ (N <= 0 -> mated_in (Z.to_nat (- N)) (abs g) = true).
+Proof.
+  intros pollp g depth t rt outs e s sc N d nd pv LI M H Hin Hd.
+  pose proof (C19_printed_scores pollp g depth t rt outs e s sc (Some N) d nd pv H Hin Hd) as SC.
+  pose proof (search_mate_fields pollp (fun _ => false) true g depth t rt 0%nat outs e s H) as MF. rewrite Forall_forall in MF. specialize (MF _ Hin). cbn [mate_ok] in MF.
+  destruct (exact_value_is_truthful g (N.of_nat d) LI M) as [(_ & X)|[(n & K1 & _ & X & K)|(n & _ & X & K)]]; cbn zeta in X; rewrite <- SC in X; rewrite X in MF.
+  - discriminate MF.
+  - injection MF as ->. split; [intros _; rewrite Nat2Z.id; exact K|lia].
+  - injection MF as ->. split; [lia|intros _]. replace (- - Z.of_nat n) with (Z.of_nat n) by lia. rewrite Nat2Z.id. exact K.
+Qed.
+
 Print Assumptions C11_conv_pos.
 Print Assumptions C11_conv_neg.
 Print Assumptions C11_sign.
+Print Assumptions C11_exact_values_are_truthful.
+Print Assumptions C11_announcements_of_exact_searches_are_truthful.
 Print Assumptions C11_static_evaluation_never_prints_as_mate.
 Print Assumptions C11_static_evaluation_never_prints_as_mate_from_the_start_position.
